@@ -106,7 +106,7 @@ def check_ast(ast, acc, case):
         acc.states.add(min(len(w), 12))
         acc.trans.add(tuple(t['name'] for t in w))
     acc.outcomes[min(max([len(w) for w in want] or [0]), 10)] += 1
-    for route, res in (('fresh compiler', got), ('compiler that compiled other documents before', P.compile_reused(ast))):
+    for route, res in P.routes(ast, got):
         if res[0] != 'ok':
             acc.violation('compile-exception', case, 'Compiler.compile (%s) raised %s' % (route, res[1]))
             return
@@ -128,6 +128,10 @@ def run(ctx):
                 '(tag lines on one or two lines with a comment in between: look-ahead paths); non-trivial = shapes with at least one tagged pickle')
     ctx.alphabet = {'tag_menu_per_level': ['none', 'one', 'duplicate name twice', 'two on a line (one shared name)', 'two lines with a comment between']}
     A.run_shapes(ctx, __name__, ['feature-level', 'rules'], (6, 7))
+    # tags of two documents compiled by one Compiler at the same time (all interleavings at its id requests) stay apart
+    from .c15 import job_compile_schedules, COMPILE_POOL
+    m = len(COMPILE_POOL)
+    ctx.level('one Compiler, two compilations: all interleavings at id requests', [job_compile_schedules.job(i, j) for i in range(m) for j in range(i, m)])
 
 
 def replay(case):
